@@ -150,6 +150,11 @@ Proof.
 Qed.
 End Partition.
 
+Lemma blocks_shape : forall n T, 0 < n -> 0 < T ->
+  (Z.of_nat (length (blocks n T)) = n_threads n T /\ n_threads n T <= T) /\
+  (forall b, In b (blocks n T) -> (0 < length b <= Z.to_nat (block_size n T))%nat).
+Proof. intros n T Hn HT. split; [exact (blocks_count n T Hn HT) | exact (blocks_nonempty n T Hn HT)]. Qed.
+
 Lemma blocks_nat_partition : forall n T : nat, (0 < n)%nat -> (0 < T)%nat ->
   concat (blocks_nat n T) = seq 0 n.
 Proof.
@@ -268,6 +273,14 @@ Proof. intros cpu p H. unfold number_of_threads. destruct (p =? 0)%Z eqn:E; [lia
 
 Lemma number_of_threads_pos : forall cpu p, (0 < cpu)%Z -> (0 <= p)%Z -> (0 < number_of_threads cpu p)%Z.
 Proof. intros cpu p Hc Hp. unfold number_of_threads. destruct (p =? 0)%Z eqn:E; lia. Qed.
+
+Lemma threads_resolution : forall cpu p, (0 < cpu)%Z -> (0 <= p)%Z ->
+  number_of_threads cpu 0 = cpu /\ (p <> 0%Z -> number_of_threads cpu p = p) /\
+  (0 < number_of_threads cpu p)%Z.
+Proof.
+  intros cpu p Hc Hp. split; [exact (number_of_threads_zero cpu)|].
+  split; [exact (number_of_threads_nonzero cpu p) | exact (number_of_threads_pos cpu p Hc Hp)].
+Qed.
 
 Lemma scaled_likelihood_def : forall N f,
   scaled_likelihood N true f = scaled f N /\ scaled_likelihood N false f = f.
